@@ -39,6 +39,43 @@ type SK struct {
 }
 type MSS map[string]string
 
+// named scalar-kind key types with custom codecs: ordered by kind value, written through their hook
+type TK int
+
+func (x TK) MarshalText() ([]byte, error) { return []byte(fmt.Sprintf("tk%d", int(x))), nil }
+func (x *TK) UnmarshalText(b []byte) error {
+	var v int
+	if _, err := fmt.Sscanf(string(b), "tk%d", &v); err != nil {
+		return fmt.Errorf("TK.UnmarshalText: not a TK text form: %q", b)
+	}
+	*x = TK(v)
+	return nil
+}
+
+type BK string
+
+func (x BK) MarshalBinary() ([]byte, error) { return []byte("bk:" + string(x)), nil }
+func (x *BK) UnmarshalBinary(b []byte) error {
+	if !strings.HasPrefix(string(b), "bk:") {
+		return fmt.Errorf("BK.UnmarshalBinary: not a BK binary form: %q", b)
+	}
+	*x = BK(string(b[3:]))
+	return nil
+}
+
+type SFK int16
+
+func (x SFK) CodecEncodeSelf(e *codec.Encoder) { e.MustEncode(fmt.Sprintf("sfk%d", int(x))) }
+func (x *SFK) CodecDecodeSelf(d *codec.Decoder) {
+	var s string
+	d.MustDecode(&s)
+	var v int
+	if _, err := fmt.Sscanf(s, "sfk%d", &v); err != nil {
+		panic(fmt.Errorf("SFK.CodecDecodeSelf: not an SFK form: %q", s))
+	}
+	*x = SFK(v)
+}
+
 var strT = reflect.TypeOf("")
 
 func sentinel(i int) string { return fmt.Sprintf("#v%03d#", i) }
@@ -121,6 +158,9 @@ func kinds() []keyKind {
 			}
 			return float64(math.Float32frombits(uint32(r.U64())&^(0xff<<23) | uint32(r.Intn(254)+1)<<23))
 		}),
+		mk("TK-text-hook", "KKInt", reflect.TypeOf(TK(0)), func(r *vh.Rng) interface{} { return randInt64(r, 32) }),
+		mk("BK-binary-hook", "KKString", reflect.TypeOf(BK("")), func(r *vh.Rng) interface{} { return randKeyString(r) }),
+		mk("SFK-selfer-hook", "KKInt", reflect.TypeOf(SFK(0)), func(r *vh.Rng) interface{} { return randInt64(r, 16) }),
 		mk("bool", "KKBool", reflect.TypeOf(false), func(r *vh.Rng) interface{} { return r.Bool() }),
 		{name: "time", kk: "KKTime", typ: reflect.TypeOf(time.Time{}), gen: func(r *vh.Rng) reflect.Value {
 			return reflect.ValueOf(time.Unix(int64(r.Intn(4000000000))-1000000000, int64(r.PickInt(0, 0, 1, 999999999, r.Intn(1000000000)))).UTC())
@@ -775,7 +815,7 @@ func main() {
 	cases := flag.String("cases", "/verif/build/c08/cases", "directory for the model case files")
 	flag.Parse()
 	r := vh.NewRng(vh.SeedFromEnv())
-	sum := vh.NewSummary("maps: 27 key kinds (string, named string, intN, named int, uintN, uintptr, named uint, float32/64, named float, bool, time, time keys inside one second, time in several zones, struct, array, interface{} with distinct / with shared encodings, named fast-path map) x 5 formats x random options x sizes 1..24 x 3 insertion permutations x reps fresh Encoders x 4 goroutines x bytes/io; distinct by (key kind, format, size, ties). struct: MissingFielder struct (declared fields always present / all omitempty with 0, 1, several or all present) x extra-field sets rebuilt in random order. nested: maps/lists to depth 3 rebuilt in random insertion orders")
+	sum := vh.NewSummary("maps: 30 key kinds (named int/string/int16 keys with Text / Binary / Selfer hooks, string, named string, intN, named int, uintN, uintptr, named uint, float32/64, named float, bool, time, time keys inside one second, time in several zones, struct, array, interface{} with distinct / with shared encodings, named fast-path map) x 5 formats x random options x sizes 1..24 x 3 insertion permutations x reps fresh Encoders x 4 goroutines x bytes/io; distinct by (key kind, format, size, ties). struct: MissingFielder struct (declared fields always present / all omitempty with 0, 1, several or all present) x extra-field sets rebuilt in random order. nested: maps/lists to depth 3 rebuilt in random insertion orders")
 	cv := vh.NewCases(*cases, "From Coq Require Import List NArith ZArith.\nFrom Verif Require Import C08.Model C08.Corr.\nImport ListNotations.", "case", "mismatches", 60)
 	id := mapsStream(r.Fork(), *nMaps, *reps, cv, sum, 0)
 	structStream(r.Fork(), *nStruct, *reps, cv, sum, id)
